@@ -51,7 +51,8 @@ Inductive pcase :=
 | PItem (b : pbytes) (r : option pbytes)
 | PItemSame (b : pbytes)
 | PStream (ty : int) (b : pbytes) (r : option (pbytes * int))
-| PRej (ty : int) (stream : bool) (b : pbytes) (cls : bool).
+| PRej (ty : int) (stream : bool) (b : pbytes) (cls : bool)
+| PEncR (ty : int) (v : pvalue) (b : pbytes).
 
 Definition unpack_case (c : pcase) : case :=
   match c with
@@ -63,6 +64,7 @@ Definition unpack_case (c : pcase) : case :=
   | PStream ty b r =>
     CStream (n_of_int ty) (unpack b) (option_map (fun p => (unpack (fst p), n_of_int (snd p))) r)
   | PRej ty stream b cls => CRej (n_of_int ty) stream (unpack b) cls
+  | PEncR ty v b => CEncR (n_of_int ty) (unpack_value v) (unpack b)
   end.
 
 Definition pmismatches (t : table) (l : list pcase) : list N :=
